@@ -786,6 +786,30 @@ def _prevalidate(spec):
     return True
 
 
+def _reach(spec, start, goal):
+    succ = [[r[1] for r in sl if r[0] == "n"] for _, sl in spec]
+    stack, seen = list(succ[start]), set()
+    while stack:
+        j = stack.pop()
+        if j == goal:
+            return True
+        if j not in seen:
+            seen.add(j)
+            stack.extend(succ[j])
+    return False
+
+
+def cycle_through_hashed_or_immutable(spec):
+    """Input partition: does the graph have a cycle that passes through a tuple, frozenset, set or bound
+    method node, or through the *key* edge of a dict node?"""
+    for i, (k, sl) in enumerate(spec):
+        if k in "TFSM" and _reach(spec, i, i):
+            return True
+        if k == "D" and sl and sl[0][0] == "n" and (sl[0][1] == i or _reach(spec, sl[0][1], i)):
+            return True
+    return False
+
+
 class RoundTrip(Bounded):
     prop = "C45"
     title = ("unjelly(jelly(g), policy) is isomorphic to g (same types and values, same sharing and cycles among "
@@ -796,9 +820,12 @@ class RoundTrip(Bounded):
              "tuples/frozensets/dict keys/methods) or to an atom.  Exhaustive: all 1- and 2-node graphs with 0..2 slots "
              "per node over 2 atoms (int, str).  Seeded random: 3..5 nodes, up to 3 slots, 22 atoms (bytes, float, "
              "bool, None, Decimal, date/datetime/time/timedelta, big int, empty and non-ASCII text, an allowed class, "
-             "function and module); 20000 quick / 400000 thorough.  Specs that cannot be built in Python (unhashable "
+             "function and module); 20000 quick / 400000 thorough draws (x8 for the cyclic-through-immutable class, before the partition filter).  Thorough adds all 3-node graphs with 0..2 slots over one atom.  Specs that cannot be built in Python (unhashable "
              "member, cycle through immutables only) are skipped.  Policy: allowInstancesOf(A, A2, J) + function, method; "
-             "jelly() is called with the same policy as taster.")
+             "jelly() is called with the same policy as taster.  This class takes the graphs in which no cycle passes "
+             "through a tuple, frozenset, set, bound method or dict key (sharing of any node, and cycles through lists, "
+             "dict values and instance attributes, are all in).")
+    HARD = False
     functions = ["jelly.jelly", "_Jellier.jelly", "_Jellier._cook", "_Jellier.prepare", "_Jellier.preserve",
                  "jelly.unjelly", "_Unjellier.unjelly", "_Unjellier._unjelly_reference", "_Unjellier._unjelly_dereference",
                  "_Unjellier._unjelly_tuple", "_Unjellier._unjelly_dictionary", "_Unjellier._unjellySetOrFrozenset",
@@ -807,12 +834,19 @@ class RoundTrip(Bounded):
     def cases(self, tier, rng):
         for nn in (1, 2):
             for spec in _all_specs(nn, len(ATOMS_SMALL)):
-                if _prevalidate(spec):
+                if _prevalidate(spec) and cycle_through_hashed_or_immutable(spec) == self.HARD:
+                    yield ("small", spec)
+        if tier == "thorough":
+            # all 3-node graphs with 0..2 slots per node over one atom
+            for spec in _all_specs(3, 1):
+                if _prevalidate(spec) and cycle_through_hashed_or_immutable(spec) == self.HARD:
                     yield ("small", spec)
         n = 20000 if tier == "quick" else 400000
+        if self.HARD:
+            n *= 8  # such graphs are a small fraction of the random draw
         for _ in range(n):
             spec = _random_spec(rng, rng.randint(3, 5), len(ATOMS_RICH))
-            if _prevalidate(spec):
+            if _prevalidate(spec) and cycle_through_hashed_or_immutable(spec) == self.HARD:
                 yield ("rich", spec)
 
     def nontrivial(self, case):
@@ -829,8 +863,6 @@ class RoundTrip(Bounded):
         taster = RT_POLICY.build()
         try:
             sexp = jelly.jelly(g, taster)
-        except RecursionError:
-            raise Bounded.Skip()
         except Exception as e:
             return "jelly() of an allowed graph raised %r" % (e,)
         try:
@@ -839,6 +871,9 @@ class RoundTrip(Bounded):
                 out = jelly.unjelly(sexp, taster)
         except Exception as e:
             return "unjelly(jelly(g)) raised %r; jelly was %r" % (e, sexp)
+        ph = find_placeholder(out)
+        if ph is not None:
+            return "unresolved placeholder %s left in the result; jelly was %r" % (ph, sexp)
         r = iso(g, out, ({}, {}, set()))
         if r is not None:
             return "%s; jelly was %r; got %r" % (r, sexp, _safe_repr(out))
@@ -850,6 +885,42 @@ class RoundTrip(Bounded):
         return None
 
 
+class RoundTripCyclesThroughHashedOrImmutable(RoundTrip):
+    title = RoundTrip.title + " -- graphs with a cycle through a tuple, frozenset, set, bound method or dict key"
+    scope = ("same graph space, generators and policy as RoundTrip, restricted to the graphs in which some cycle passes "
+             "through a tuple, frozenset, set, bound method or dict key node (e.g. a.t = (a,), a.s = {a}, a.d = {a: 1}, "
+             "a.cb = a.meth, l = [(l, [the tuple])])")
+    HARD = True
+
+
+def find_placeholder(obj, seen=None, path="root"):
+    """Is one of crefutil's internal not-yet-known markers still reachable from a finished result?"""
+    if seen is None:
+        seen = set()
+    if id(obj) in seen:
+        return None
+    seen.add(id(obj))
+    if isinstance(obj, crefutil.NotKnown):
+        return "%s at %s" % (type(obj).__name__, path)
+    t = type(obj)
+    kids = ()
+    if t in (list, tuple):
+        kids = [("%s[%d]" % (path, i), x) for i, x in enumerate(obj)]
+    elif t in (set, frozenset):
+        kids = [(path + "{}", x) for x in obj]
+    elif t is dict:
+        kids = [(path + ".key", k) for k in obj] + [(path + ".value", v) for v in obj.values()]
+    elif t is types.MethodType:
+        kids = [(path + ".__self__", obj.__self__)]
+    elif t in _INSTANCE_TYPES:
+        kids = [("%s.%s" % (path, k), v) for k, v in obj.__dict__.items()]
+    for p, x in kids:
+        r = find_placeholder(x, seen, p)
+        if r:
+            return r
+    return None
+
+
 def _safe_repr(x):
     try:
         return repr(x)[:200]
@@ -857,4 +928,59 @@ def _safe_repr(x):
         return "<unreprable %s: %r>" % (type(x).__name__, e)
 
 
-BOUNDED = [UnjellyPolicyNoFunctionTag, UnjellyPolicyFunctionTag, RoundTrip]
+# --------------------------------------------------------------------------------------------------
+# helper predicates for known-finding regions (usable as parts('C45').<name>(case, what))
+
+# names of the alphabet that denote a module or a class, not a function (by construction of the canaries /
+# by what the real modules are)
+_NONFUNCTION_NAMES = frozenset(
+    n for n in ALL_NAMES
+    if (n.decode() if isinstance(n, bytes) else n) in (
+        "_c45_good.A", "_c45_good.A2", "_c45_good.B", "_c45_good.J", "_c45_good.os", "_c45_good.subprocess",
+        "_c45_good.badmod", "_c45_good.ImportedBad", "_c45_bad.BadCls", "_c45_lazy.LazyCls", "_c45_pkg.sub",
+        "_c45_pkg.sub.LazyCls", "os.path", "subprocess.Popen", "builtins.object", "builtins.type",
+        "twisted.spread.jelly.DummySecurityOptions", "_c45_good.badmod.BadCls"))
+
+
+def function_tag_names_nonfunction(case, what=""):
+    """The expression contains ['function', name] where name denotes a module or a class."""
+    def walk(x):
+        if isinstance(x, tuple):
+            if len(x) >= 2 and x[0] == b"function" and not isinstance(x[1], tuple) and x[1] in _NONFUNCTION_NAMES:
+                return True
+            return any(walk(i) for i in x)
+        return False
+    return walk(case[1])
+
+
+def _cycle_through(spec, kinds):
+    """Does the graph have a cycle that passes through a node of one of `kinds`?"""
+    n = len(spec)
+    succ = [[r[1] for r in sl if r[0] == "n"] for _, sl in spec]
+    for start in range(n):
+        if spec[start][0] not in kinds:
+            continue
+        stack, seen = list(succ[start]), set()
+        while stack:
+            j = stack.pop()
+            if j == start:
+                return True
+            if j not in seen:
+                seen.add(j)
+                stack.extend(succ[j])
+    return False
+
+
+def roundtrip_cyclic_dict_key(case, what=""):
+    """A dict key that is (or contains) an object still under construction: the unjellier hashes a placeholder."""
+    return "dictionary key" in what and any(k == "D" for k, _ in case[1]) and _cycle_through(case[1], "D")
+
+
+def roundtrip_cycle_through_immutable(case, what=""):
+    """A cycle through a tuple / frozenset / set / method whose own reference id is used inside it while it
+    still waits for an outer reference: a placeholder leaks or crefutil asserts."""
+    return (("unresolved placeholder" in what or "AssertionError()" in what)
+            and _cycle_through(case[1], "TFS"))
+
+
+BOUNDED = [UnjellyPolicyNoFunctionTag, UnjellyPolicyFunctionTag, RoundTrip, RoundTripCyclesThroughHashedOrImmutable]
